@@ -466,3 +466,11 @@ Proof. intros w evs. induction evs as [|e r IH]; [reflexivity|]. destruct e; cbn
 
 Lemma stranded_unrecovered : forall w evs, stranded false w evs = if existsb (fun e => match e with EvPanic => true | EvItem => false end) evs then w else 0.
 Proof. intros w evs. induction evs as [|e r IH]; [reflexivity|]. destruct e; cbn; [exact IH|reflexivity]. Qed.
+
+(* merge left on any path: with the deferred store both readers return within two steps; with a plain store behind the
+   call a panic leaves them iterating their whole operand *)
+Lemma merge_left_quiesces : forall e remaining, merge_reader_steps true e remaining <= 2.
+Proof. intros e r. unfold merge_reader_steps. destruct e; cbn; apply tochan_wrapped_steps. Qed.
+
+Lemma merge_plain_store_unbounded : forall bound, exists remaining, merge_reader_steps false MPanics remaining > bound.
+Proof. intro b. exists b. unfold merge_reader_steps. cbn. rewrite tochan_unwrapped_steps. lia. Qed.
